@@ -25,7 +25,9 @@ import (
 	"github.com/openconfig/gnmi/client"
 	gclient "github.com/openconfig/gnmi/client/gnmi"
 	"github.com/openconfig/gnmi/ctree"
+	"github.com/openconfig/gnmi/connection"
 	"github.com/openconfig/gnmi/errlist"
+	"github.com/openconfig/gnmi/manager"
 	pb "github.com/openconfig/gnmi/proto/gnmi"
 	"github.com/openconfig/gnmi/subscribe"
 	"github.com/openconfig/gnmi/zz_verif/vh"
@@ -82,6 +84,9 @@ func pathLess(a, b []string) bool {
 func dumpCache(c *cache.Cache, targets []string) map[string][]DLeaf {
 	out := map[string][]DLeaf{}
 	for _, t := range targets {
+		if t == "" {
+			continue // Cache.Query rejects the empty target name
+		}
 		ls := []DLeaf{}
 		c.Query(t, []string{"*"}, func(p []string, _ *ctree.Leaf, v interface{}) error {
 			n, ok := v.(*pb.Notification)
@@ -104,8 +109,13 @@ func dumpCache(c *cache.Cache, targets []string) map[string][]DLeaf {
 
 // runIngest feeds the steps to a fresh cache; the returned ops hold the
 // messages as the code saw them.
-func runIngest(targets []string, ops []Op) ([]Op, []IObs) {
-	c := cache.New(targets)
+func runIngest(targets []string, noEvent bool, ops []Op) ([]Op, []IObs) {
+	var c *cache.Cache
+	if noEvent {
+		c = cache.New(targets, cache.DisableEventDrivenEmulation())
+	} else {
+		c = cache.New(targets)
+	}
 	now := int64(1000)
 	cache.Now = func() time.Time { return time.Unix(0, now) }
 	seen := make([]Op, 0, len(ops))
@@ -255,7 +265,12 @@ func runSub(q *Req) (*Req, SObs) {
 			Update: []*pb.Update{{Path: &pb.Path{Elem: []*pb.PathElem{{Name: "a"}, {Name: "b"}}},
 				Val: &pb.TypedValue{Value: &pb.TypedValue_IntVal{IntVal: 1}}}}})
 	}
-	srv, _ := subscribe.NewServer(c)
+	var srv *subscribe.Server
+	if q.Stats {
+		srv, _ = subscribe.NewServer(c, subscribe.WithStats())
+	} else {
+		srv, _ = subscribe.NewServer(c)
+	}
 	c.SetClient(srv.Update)
 	ctx := context.Background()
 	if q.Peer {
@@ -633,4 +648,55 @@ func cliTerm(nm *vh.Names, dt, qt string, withTS bool, ops []Op, o CObs) string 
 	}
 	return fmt.Sprintf("CCli %s %s %s %s %s %s %s", nm.Path(o.Valid), gdt, gQT(qt), vh.Bool(withTS),
 		gResps(nm, ops), gOclass(res), vh.List(recs))
+}
+
+// ---------------------------------------------------------------------------
+// target manager: one received response at a time
+
+// MObs is the observation of one manager.handleGNMIUpdate call.
+type MObs struct {
+	Res   string `json:"res"`
+	Code  int    `json:"code"` // callback invoked: 0 none, 1 update, 2 sync
+	Panic string `json:"panic,omitempty"`
+}
+
+func runMgr(ops []Op) ([]Op, []MObs) {
+	seen, sc, _ := script(ops)
+	code := 0
+	cm, err := connection.NewManager()
+	if err != nil {
+		vh.Die("connection manager: %v", err)
+	}
+	m, err := manager.NewManager(manager.Config{
+		ConnectionManager: cm,
+		Update:            func(string, *pb.Notification) { code = 1 },
+		Sync:              func(string) { code = 2 },
+	})
+	if err != nil {
+		vh.Die("manager: %v", err)
+	}
+	obs := make([]MObs, 0, len(sc))
+	for _, r := range sc {
+		code = 0
+		var herr error
+		res, what := guard(func() { herr = manager.VerifC12Handle(m, "t1", r) })
+		o := MObs{Res: res, Panic: what, Code: code}
+		if res == "ok" && herr != nil {
+			o.Res = "err"
+		}
+		obs = append(obs, o)
+	}
+	return seen, obs
+}
+
+func mgrTerm(nm *vh.Names, ops []Op, obs []MObs) string {
+	parts := make([]string, len(ops))
+	for i, op := range ops {
+		res := obs[i].Res
+		if res == "hang" {
+			res = "panic"
+		}
+		parts[i] = fmt.Sprintf("(%s, (%s, %s))", gResp(nm, op.R), gOclass(res), gN(uint64(obs[i].Code)))
+	}
+	return "CMgr " + vh.List(parts)
 }
